@@ -673,3 +673,12 @@ def run(ctx):
 
 EXPLANATION = EXPLANATION + " " + (
     'R05.8 (replay.py, see C03): per history, on a fresh object, the history, probe intervals, the history backwards and the probes again are asked; every interval asked more than once must get one and the same canonical form every time (cache sizes 0, 1, 45 / 0..4, 45, unbounded; dt hints; plain and dyadic tree; Levy modes none and space-time).')
+
+
+_run_before_r03_11 = run
+
+
+def run(ctx):
+    _run_before_r03_11(ctx)
+    from . import replay_rules
+    ctx.guard(replay_rules.r03_11)
